@@ -496,3 +496,35 @@ Proof.
   intros [a [b [Ha [Hb [Hk Hne]]]]]. apply Hne.
   apply (inv_no_conflict _ _ I); [apply emits_of_in; exact Ha|apply emits_of_in; exact Hb|exact Hk].
 Qed.
+
+Lemma kcount_two l1 a l2 b l3 k : e_key a = k -> e_key b = k -> (2 <= kcount (l1 ++ a :: l2 ++ b :: l3) k)%nat.
+Proof.
+  intros Ha Hb. unfold kcount. rewrite filter_app, app_length. simpl.
+  rewrite Ha, key_eqb_refl. simpl. rewrite filter_app, app_length. simpl. rewrite Hb, key_eqb_refl. simpl. lia.
+Qed.
+
+(* identical bytes from two inserts: ONE entry, whose module_ids are the strictly sorted union of
+   the ids of every insert for that key *)
+Lemma merge_thm c e prof filt ms ts D R :
+  select_modules c prof = Some ms -> selected_targets c filt = Ok ts ->
+  render c e prof filt = Ok (D, R) ->
+  NoDup (map d_key D) /\
+  forall a b l1 l2 l3, emits_of (all_steps e ms ts) = l1 ++ a :: l2 ++ b :: l3 -> e_key a = e_key b ->
+    e_bytes a = e_bytes b /\
+    exists x, In x D /\ d_key x = e_key a /\ d_bytes x = e_bytes a /\ ssorted (d_ids x) /\
+              forall i, In i (d_ids x) <->
+                        exists em, In (Emit em) (all_steps e ms ts) /\ e_key em = e_key a /\ In i (e_ids em).
+Proof.
+  intros H1 H2 Hr. destruct (ok_no_conflict _ _ _ _ _ _ _ _ H1 H2 Hr) as [_ [_ I]].
+  split; [apply (inv_nodup _ _ I)|].
+  intros a b l1 l2 l3 Hdec Hk.
+  assert (Ha : In a (emits_of (all_steps e ms ts))) by (rewrite Hdec; apply in_or_app; right; left; reflexivity).
+  assert (Hb : In b (emits_of (all_steps e ms ts)))
+    by (rewrite Hdec; apply in_or_app; right; right; apply in_or_app; right; left; reflexivity).
+  split; [apply (inv_no_conflict _ _ I); assumption|].
+  destruct (inv_bytes _ _ I a Ha) as [x [Hx [Kx Bx]]]. exists x.
+  split; [exact Hx|]. split; [exact Kx|]. split; [exact Bx|]. split.
+  - apply (inv_sorted _ _ I x Hx). rewrite Hdec. apply kcount_two; congruence.
+  - intros i. rewrite (inv_ids _ _ I x Hx i). rewrite Kx. split; intros [em [Hem Hrest]]; exists em;
+      (split; [apply emits_of_in; exact Hem|exact Hrest]).
+Qed.
